@@ -38,6 +38,27 @@ CLAIMED = {
         note="Linearity (C07) turns 'all cotangents and inputs' into one operator; bounded sizes; CPU only.",
         technique="TLA+ adjointness law (Backward = Transpose(Forward)) + grad-subset state machine (TLC) + exact VJP operator replay",
         design="9/C05"),
+    "C08": dict(
+        text="spec/Scat.tla models the bookkeeping around the pointwise smooth modulus: size extension (odd -> replicate; second "
+             "order: to a multiple of 8 by slicing), documented output sizes, and the channel arithmetic of cat + view for the "
+             "7C / 49C layouts against the declarative band-major path table (49 paths cover 0..48) for every size and channel "
+             "count in the bounds (TLC). Both layers are compared numerically with the composition of the reference "
+             "dtcwt.Transform2d and the formulas for 5 filter families incl. band-pass variants, biases {0,1e-3,1e-2,1}, colour "
+             "on/off, 6 input kinds (values on even / multiple-of-8 sizes); every H in 2..19 x W in {2,3,8,13}: documented "
+             "shape, non-negative magnitudes, no raise (KNOWN-FINDING F10: 2-row/2-column inputs of ScatLayerj2).",
+        note="The linear DTCWT levels are C03's obligation; non-negativity is structural (sqrt(.+b^2)-b).",
+        technique="TLA+ model of extension/channel bookkeeping (TLC) + numeric replay against the reference DTCWT composition",
+        design="9/C08"),
+    "C09": dict(
+        text="spec/Scat.tla: the slices splitting the cotangent hit exactly the paths the forward concatenated, the view "
+             "arithmetic inverts the forward's, and 1/4 * nearest up-sampling is the transpose of avg_pool2d(2) (TLC); the "
+             "linear inverse levels used by the backward are C06's adjoint laws. VJPs of both layers (3 families incl. "
+             "band-pass, colour on/off, odd and non-multiple-of-8 sizes) are compared with central finite differences in "
+             "float64 along random and basis directions at generic points, the all-zero image and huge inputs; finiteness "
+             "at zero / tiny / huge inputs; the stand-alone SmoothMagFn for every grad subset.",
+        note="Finite differences (float64, relative tolerance 1e-5) decide the numeric clause; magbias > 0 as the property requires.",
+        technique="TLA+ model of the backward bookkeeping (TLC) + finite-difference replay of the real VJPs",
+        design="9/C09"),
     "C10": dict(
         text="TLC checks the stage model of sfb1d against pywt.idwt on free coefficient vectors for every forward-"
              "compatible length, and the inverse call machines (unpad rule, None -> zeros incl. dtype; never raises, "
